@@ -108,6 +108,16 @@ def check(case):
             first = exp.split('\n')[0].split('\t') if exp else []
             if st_ != first:
                 raise Bad('spine-types-query', f'spine_types(doc, {list(sub)}) = {st_}, header line of the projection is {first}')
+    # types that do not occur in the document: alone they select nothing (an empty list, not a list with an empty name),
+    # next to present ones they change nothing
+    absent = [t for t in ('**harm', '**mens', '**fing', '**nope') if t not in types]
+    for ab in absent[:2]:
+        for sub in ([ab], [ab, present[0]], [present[-1], ab], []):
+            st_ = kp.spine_types(kdoc, list(sub) if evals % 2 else tuple(sub))
+            evals += 1
+            want = [t for t in types if t in sub]
+            if st_ != want:
+                raise Bad('spine-types-query-absent-type', f'spine_types(doc, {list(sub)}) = {st_!r}, expected {want!r} for a document with the spines {types}')
     if kp.spine_types(kdoc) != [t for t in types]:
         raise Bad('spine-types-default', f'spine_types(doc) = {kp.spine_types(kdoc)} for {types}')
     for ids, tys in case['combos']:
